@@ -139,3 +139,18 @@ func (e *Env) makeShared(ts string, c codec.Codec) {
 	}
 	e.sharedBase[ts] = b
 }
+
+// paramsKV reads the current value of every known key (what the library will
+// see when it is handed this object).
+func paramsKV(p codec.Parameters) map[string]interface{} {
+	if p == nil {
+		return nil
+	}
+	out := map[string]interface{}{}
+	for _, k := range allKeys {
+		if v := p.GetParameter(k); v != nil {
+			out[k] = v
+		}
+	}
+	return out
+}
